@@ -3,6 +3,7 @@ import J5V.Props.C08
 #print axioms J5V.Props.C08.C08_escape_total
 #print axioms J5V.Props.C08.C08_integer_forms
 #print axioms J5V.Props.C08.C08_float_forms
+#print axioms J5V.Props.C08.C08_scalar_conforms
 #print axioms J5V.Props.C08.C08_wellformed_partial
 #print axioms J5V.Props.C08.C08_parse_is_encoder_tree
 #print axioms J5V.Props.C08.C08_src_formats
